@@ -48,6 +48,22 @@ static inline void h2_claim_frontend(int fe)
   }
 }
 
+// total bytes ever written by the calling thread into its unbounded queue: the writer position of the producer's node plus
+// the final positions of the nodes it left behind (a new node starts at 0)
+static inline uint64_t h2_unbounded_writer_bytes(quill::detail::ThreadContext* tc)
+{
+  static thread_local void* node = nullptr;
+  static thread_local uint64_t left_behind = 0, last_pos = 0;
+  auto* prod = tc->get_spsc_queue_union().unbounded_spsc_queue._producer;
+  if (static_cast<void*>(prod) != node)
+  {
+    left_behind += last_pos;
+    node = prod;
+  }
+  last_pos = prod->bounded_queue._writer_pos;
+  return left_behind + last_pos;
+}
+
 struct MixLogger
 {
   LGB* b{nullptr};
